@@ -153,7 +153,8 @@ let rec show_form buf (f : form) =
   | FRef -> add "(Ref)"
 let form_str f = let buf = Buffer.create 64 in show_form buf f; Buffer.contents buf
 
-let eval_fuel = nat_of_int 700
+(* fuel bounds the nesting depth and the number of fixed-point iterations *)
+let eval_fuel_for cps = nat_of_int (700 + List.length cps)
 
 (* tok (ordering) (text) *)
 let op_tok (args : sx) : string =
@@ -184,7 +185,7 @@ let op_eval (args : sx) : string =
       let (uc, cps) = text_of txt in
       (match parsed_formula uc (ordering_of ord) cps with
        | Done p ->
-           (match eval_f eval_fuel p.pf_form with
+           (match eval_f (eval_fuel_for cps) p.pf_form with
             | Some b -> "(ok " ^ bdd_str b ^ " " ^ show_ids p.pf_vars ^ " " ^ show_ids p.pf_free ^ ")"
             | None -> "(diverge)")
        | _ -> "(err)")
@@ -226,3 +227,103 @@ let () =
   Hashtbl.replace classifiers "tok" classify_tok;
   Hashtbl.replace classifiers "parse" classify_parse;
   Hashtbl.replace classifiers "eval" classify_eval
+
+(* ---------- raw byte texts (S-robust): strict UTF-8 decoding as Rust's read_to_string does it ---------- *)
+exception Invalid_utf8
+let decode_utf8 (b : int array) : int list =
+  let n = Array.length b in
+  let out = ref [] in
+  let i = ref 0 in
+  let cont k = if k >= n then raise Invalid_utf8 else let c = b.(k) in if c land 0xC0 <> 0x80 then raise Invalid_utf8 else c land 0x3F in
+  while !i < n do
+    let c = b.(!i) in
+    if c < 0x80 then (out := c :: !out; incr i)
+    else if c >= 0xC2 && c <= 0xDF then (out := (((c land 0x1F) lsl 6) lor cont (!i + 1)) :: !out; i := !i + 2)
+    else if c >= 0xE0 && c <= 0xEF then begin
+      let cp = ((c land 0x0F) lsl 12) lor (cont (!i + 1) lsl 6) lor cont (!i + 2) in
+      if cp < 0x800 || (cp >= 0xD800 && cp <= 0xDFFF) then raise Invalid_utf8;
+      out := cp :: !out; i := !i + 3
+    end else if c >= 0xF0 && c <= 0xF4 then begin
+      let cp = ((c land 0x07) lsl 18) lor (cont (!i + 1) lsl 12) lor (cont (!i + 2) lsl 6) lor cont (!i + 3) in
+      if cp < 0x10000 || cp > 0x10FFFF then raise Invalid_utf8;
+      out := cp :: !out; i := !i + 4
+    end else raise Invalid_utf8
+  done;
+  List.rev !out
+
+(* general text argument: a code point list, or (raw (bytes…) ((cp tag)…)) ; None = not valid UTF-8 *)
+let text_arg (x : sx) : ((n -> ucls) * n list) option =
+  match x with
+  | L [A "raw"; L bytes; L classes] ->
+      let tbl : (int, ucls) Hashtbl.t = Hashtbl.create 8 in
+      List.iter (function L [c; t] -> Hashtbl.replace tbl (int_atom c) (match atom t with "w" -> UWord | "d" -> UDigit | _ -> UOther)
+                        | _ -> raise (Bad "class")) classes;
+      (try
+         let cps = decode_utf8 (Array.of_list (List.map int_atom bytes)) in
+         let uc (c : n) = match Hashtbl.find_opt tbl (int_of_n c) with Some k -> k | None -> UOther in
+         Some (uc, List.map n_of_int cps)
+       with Invalid_utf8 -> None)
+  | _ -> Some (text_of x)
+
+(* ---------- S-cli ---------- *)
+let tte_of_atom = function "t" -> TTrue | "f" -> TFalse | _ -> TAny
+let show_cell = function TT -> "T" | TF -> "F" | TA -> "A"
+let show_cells cs = "(" ^ String.concat " " (List.map show_cell cs) ^ ")"
+
+(* cli (filter retain model repeat) ordfile-or-none text *)
+let op_cli (args : sx) : string =
+  match args with
+  | L (L [f; c; m; rep] :: ordf :: txt :: _) ->
+      let opts = { o_filter = tte_of_atom (atom f); o_retain = tte_of_atom (atom c); o_model = (atom m = "1"); o_repeat = nat_atom rep } in
+      let ord = match ordf with A "none" -> `None | x -> (match text_arg x with Some (_, cps) -> `Some cps | None -> `Bad) in
+      (match ord, text_arg txt with
+       | `Bad, _ | _, None -> "(err)"
+       | o, Some (uc, cps) ->
+           (* one classification function serves both texts: the class table of the case covers both *)
+           let uc = (match ordf with A "none" -> uc | x -> (match text_arg x with Some (uc2, _) -> (fun c -> match uc c with UOther -> uc2 c | k -> k) | None -> uc)) in
+           let ordfile = match o with `Some l -> Some l | _ -> None in
+           (match cli (eval_fuel_for cps) uc opts ordfile cps with
+            | CliError -> "(err)"
+            | CliDiverged -> "(diverge)"
+            | CliPanic -> "(panic)"
+            | CliOk out ->
+                let rows = List.sort compare (List.map (fun (cs, r) -> "(" ^ show_cells cs ^ " " ^ (if r then "1" else "0") ^ ")") out.out_rows) in
+                let tv = List.sort compare (List.map show_cells out.out_true) in
+                "(ok (" ^ String.concat " " (List.map show_name out.out_header) ^ ") (" ^ String.concat " " rows ^ ") ("
+                ^ String.concat " " tv ^ ") (" ^ String.concat " " (List.map show_name out.out_order) ^ "))"))
+  | _ -> raise (Bad "cli")
+
+(* robust (text) : outcome class of tokenize + parse + eval *)
+let op_robust (args : sx) : string =
+  match args with
+  | L [txt] ->
+      (match text_arg txt with
+       | None -> "(err)"
+       | Some (uc, cps) ->
+           (match parsed_formula uc [] cps with
+            | Done p -> (match eval_f (eval_fuel_for cps) p.pf_form with Some _ -> "(ok)" | None -> "(diverge)")
+            | _ -> "(err)"))
+  | _ -> raise (Bad "robust")
+
+let classify_cli (_ : sx) (real : string) (model : string) : string =
+  if real = "(panic)" then "panic"
+  else if real = "(timeout)" then "no-result"
+  else
+    let get s = match (try Some (parse_sx s) with Bad _ -> None) with
+      | Some (L [A "ok"; h; rows; tv; ord]) -> Some (h, rows, tv, ord) | _ -> None in
+    match get real, get model with
+    | Some (h1, r1, t1, o1), Some (h2, r2, t2, o2) ->
+        let parts = ref [] in
+        if h1 <> h2 then parts := "header" :: !parts;
+        if r1 <> r2 then parts := "rows" :: !parts;
+        if t1 <> t2 then parts := "truevars" :: !parts;
+        if o1 <> o2 then parts := "order" :: !parts;
+        if !parts = [] then "holds" else String.concat " " (List.rev !parts)
+    | _ -> if String.length real > 12 && String.sub real 0 12 = "(ok-roundtri" then "roundtrip" else "accept"
+let classify_robust (_ : sx) (real : string) (_ : string) : string =
+  if real = "(panic)" then "panic" else "accept"
+let () =
+  Hashtbl.replace table "cli" op_cli;
+  Hashtbl.replace table "robust" op_robust;
+  Hashtbl.replace classifiers "cli" classify_cli;
+  Hashtbl.replace classifiers "robust" classify_robust
